@@ -289,3 +289,13 @@ def check_clear_tid_reset(ck, prog, rule):
         ds = call_blocks(c, dealloc)
         ok = bool(ds) and all(any(c.cfg.dominates(tb, d) and tb != d and v == 0 for tb, v in tid) for d in ds)
         ck.ob(rule, f"clear-tid-reset-before-free|{p}", ok, fn=p, detail="on the thread side SET_TID_ADDRESS(0) must precede freeing the block: otherwise the kernel writes 0 into (and futex-wakes) freed memory when the thread exits")
+        # and only then: a thread that resets its clear-tid address while a joiner may still wait on the exit word is never reported
+        # as finished (the kernel's write at exit is the only thing that releases the joiner, C05.6)
+        lone = []
+        for tb, v in tid:
+            seen = c.cfg.reachable_from(tb, avoid=frozenset(ds))
+            ends = [b for b in seen if b not in ds and not c.cfg.block(b).get("cleanup") and not [e for e in c.cfg.succ[b] if e.kind != "unwind"]]
+            if ends:
+                lone.append(c.site(tb))
+        ck.ob(rule, f"clear-tid-reset-only-when-freeing|{p}", not lone, fn=p, detail=f"SET_TID_ADDRESS at {lone} can be followed by the thread's end without the thread freeing the join block itself: "
+              "a handle that still waits for the exit word would never be woken (join never returns)")
